@@ -372,6 +372,18 @@ func Run(tier, replay string) {
 	}
 	ems = append(ems, &emission{label: "metadata", consts: metadata})
 	ems = append(ems, &emission{label: "types", consts: typesCfg})
+	// the same field edits from a prebuilt scaffold (Preset "typed": global, function, alloca, typed uses of both --
+	// six calls that are not counted), so that the bounded part of the history reaches "set a field, observe, set it
+	// BACK, print" and two different fields around one observation
+	typedPreset := map[string]string{"MaxSrc": "0", "MaxCalls": "4", "Groups": `{"globals"}`, "MaxPerGroup": "1", "MaxParams": "0", "MaxBlocks": "1",
+		"MaxInsts": "3", "NewNames": `{""}`, "SetNames": `{}`, "InstRes": `{"value"}`, "TermKinds": `{"ret"}`,
+		"InstOps": `{"alloca", "use"}`, "RefTargets": `{"global", "func", "alloca"}`, "RefGlobals": "TRUE", "Preset": `"typed"`,
+		"FieldEdits": `{"GlobalAddrSpace", "GlobalContent", "FuncAddrSpace", "FuncVariadic", "AllocaAddrSpace", "AllocaElem"}`,
+		"TrackQueries": "TRUE", "StickyQueries": "TRUE", "Observers": `{"PrintModule", "PrintFunc", "QueryType"}`}
+	if tier == "thorough" {
+		typedPreset["MaxCalls"] = "5"
+	}
+	ems = append(ems, &emission{label: "types-preset", consts: typedPreset})
 	// blockaddress of a block from a global initialiser and from another function (two functions)
 	blockaddr := map[string]string{"MaxSrc": "0", "MaxCalls": "5", "Groups": `{"globals"}`, "MaxFuncs": "2", "MaxBlocks": "2", "MaxInsts": "1",
 		"NewNames": `{""}`, "SetNames": `{"y"}`, "InstRes": `{"value"}`, "TermKinds": `{"ret"}`, "InstOps": `{"use"}`,
